@@ -7,9 +7,15 @@
 #endif
 #include "src/coap_subscribe.c"
 #include "src/coap_str.c"
+#if WHICH >= 4
+#define ALLOC_CAP 48             /* every block (file name, record blobs) is a constant-size object */
+#include "stubs/alloc_bounded.h"
+#else
 #include "stubs/base.h"
+#endif
 #include "stubs/time_prng.h"
 #if WHICH >= 4
+#define MEMSET_EXACT 0          /* structs are cleared by havoc: only the call protocol is tracked */
 #include "stubs/mem_havoc.h"    /* record names / packets have symbolic sizes: only the call protocol is tracked */
 #else
 #include "stubs/mem_loops.h"
@@ -40,8 +46,20 @@ void harness(void) {
   int r = coap_op_obs_cnt_track_observe(ctx, &rname, n, NULL);
 #elif WHICH == 2
   int r = coap_op_obs_cnt_deleted(ctx, &rname);
+#elif WHICH == 6 || WHICH == 7
+  /* observe records: 'key proto listen addr_info len raw_packet len oscore' = up to 9 fread calls per record; two records + end */
+  ctx->observe_save_file = &save_file; G_read_limit = 19; G_size_reads_bounded = 1;
+  static coap_session_t session_o; coap_session_t *session = &session_o; session->context = ctx; session->proto = COAP_PROTO_UDP;
+  static coap_subscription_t key_o; static coap_address_t laddr; static coap_addr_tuple_t ainfo;
+  uint8_t pkt[4]; pkt[0] = 0x40; pkt[1] = 1; pkt[2] = 0; pkt[3] = 1; coap_bin_const_t packet = { 4, pkt };
+  IN_SCALAR(_Bool, has_osc); coap_bin_const_t osc = { 2, pkt };
+#if WHICH == 6
+  int r = coap_op_observe_added(session, &key_o, COAP_PROTO_UDP, &laddr, &ainfo, &packet, has_osc ? &osc : NULL, NULL);
 #else
-  ctx->dyn_resource_save_file = &save_file; G_read_limit = 11;   /* 5 fread calls per record: two records + end of file */
+  int r = coap_op_observe_deleted(session, &key_o, NULL);
+#endif
+#else
+  ctx->dyn_resource_save_file = &save_file; G_read_limit = 11; G_size_reads_bounded = 1;   /* 5 fread calls per record: two records + end of file */
   uint8_t pkt[4]; pkt[0] = 0x40; pkt[1] = 1; pkt[2] = 0; pkt[3] = 1; coap_bin_const_t packet = { 4, pkt };
 #if WHICH == 4
   coap_session_t *session = malloc(sizeof(*session)); ASSUME(session != NULL); session->context = ctx; session->proto = COAP_PROTO_UDP;
@@ -54,7 +72,7 @@ void harness(void) {
   CHECK(r == G_renamed, "the live file is replaced exactly when the updater reports success (never on a failure path)");
   CHECK(G_live_open == 0 && G_tmp_open == 0, "no stream is left open");
   CHECK(r == 1 || !G_tmp_created || G_tmp_removed, "on failure the temporary file is removed");
-  CHECK(r == 0 || G_tmp_writes >= ((WHICH == 1 || WHICH == 4) ? 1 : 0), "the new record is part of the new file");
+  CHECK(r == 0 || G_tmp_writes >= ((WHICH == 1 || WHICH == 4) ? 1 : WHICH == 6 ? 7 : 0), "the new record is part of the new file");
   MUSTFAIL(!(r == 1 && G_reads >= 2), "two_records_copied_reachable"); MUSTFAIL(!(r == 0 && G_tmp_created), "failure_after_create_reachable");
 #endif
 }
